@@ -51,6 +51,9 @@ def body_lines(b):
                 v, rule = "[%s]" % p["vn"], ""
             elif vk == "enum":
                 v, rule = '"x"', " // {enum: %s}" % p["vn"]
+            elif vk == "skey":
+                lines.append('  %s: 1%s' % (p["key"], comma))
+                continue
             elif vk == "opt":
                 v, rule = "1", " // {optional: true}"
             elif vk == "note":
@@ -97,14 +100,18 @@ class Out:
         if st.flip(st.blank):
             self.raw(st.nl if not st.flip(0.5) else "   " + st.nl)
         if st.flip(st.comments):
-            kind = st.rnd.randrange(3)
+            kind = st.rnd.randrange(5)
             pre = st.indent * depth
             if kind == 0:
                 self.raw(pre + "# a comment GET /x" + st.nl)
             elif kind == 1:
                 self.raw(pre + "### block" + st.nl + "URL /zz" + st.nl + pre + "###" + st.nl)
-            else:
+            elif kind == 2:
                 self.raw(pre + "###one-line block### # and a line comment" + st.nl)
+            elif kind == 3:
+                self.raw(pre + "#" + st.nl)              # a comment without text
+            else:
+                self.raw(pre + "##" + st.nl + pre + "# " + st.nl)
 
     def line(self, depth, text, label=None, free_text=False):
         st = self.style
@@ -140,6 +147,8 @@ class Out:
 
 
 def annot(a):
+    if a == "collapsed text":          # written with runs of blanks and a tab: the catalog must hold the collapsed form
+        return " //  collapsed  \t text  "
     return (" // " + a) if a else ""
 
 
